@@ -111,6 +111,11 @@ def check(ctx):
         for f in ("%.40f", "%.80f", "%.100e", "%.60g", "%#.70g", "%200.50f", "%-120.30e", "%0100f"):
             script.append("Pd %s n n %s" % (fmt([ord(c) for c in f]), fmt(dbits(x)))); n += 1
         script.append("R")
+    # widths and precisions around and beyond the 8-bit boundary
+    script.append("R")
+    for x in (0.0, 1.5, -2.25, 1e100, 123456.789, 5e-324):
+        for f in ("%255f", "%256.3f", "%-257e", "%0300g", "%1000.2f", "%.255f", "%.256e", "%.300g", "%#.257g", "%300.299f"):
+            script.append("Pd %s n n %s" % (fmt([ord(c) for c in f]), fmt(dbits(x)))); n += 1
     ctx.extra["calls"] = n
     t = ctx.drive(drv, script, "pfloat")
     bad = ctx.judge("PrintfFloatTrace", [t])
